@@ -69,7 +69,7 @@ func RandomWorkload(rng *rand.Rand, nb, writers int, safe bool, kv map[string]in
 		sort.Strings(bs.Dels)
 		w.Batches = append(w.Batches, bs)
 	}
-	w.Tail = []string{"persist", "merge", "persist", "close"}
+	w.Tail = []string{"persist", "merge", "cancelmerge", "persist", "merge", "close"}
 	return w
 }
 
